@@ -36,6 +36,30 @@ CHECKS = {
         "targets + 40 seed-chosen others) / depth 3 (thorough; positions for all expressible depth-2 targets). Nested list types are not writable in DDP source. Casts are compared only where a definition is involved.",
    technique="TLA+ type algebra + TLC law checking + TLC trace validation of real predicates and real frontend verdicts",
    ref="§4 C14"),
+ "C01": dict(
+   text="DDPSem.tla is a big-step evaluation semantics of the core language in TLA+ (64-bit integers as byte limbs, a dyadic Kommazahl fragment, Text as code points, lists, "
+        "Kombinationen, Variable, Referenz parameters through a store of locations, loops with break/continue/return). Generated programs (operator table: every operator x "
+        "admissible operand types x boundary values; statement skeletons: loop bounds/steps, break/continue/return placement, for-each, recursion; copy/alias matrix) are compiled "
+        "with the tree's kddp, linked with the tree's runtime, run, and TLC (DDPRunTrace) checks stdout and exit status of each run against the semantics.",
+   note="Bounded to the modelled subset and the generated programs; corners DDP leaves open evaluate to 'unspec' in the specification and are not compared (counted in the evidence). "
+        "quick: -O1 (table) and -O1/-O2 (statements); thorough: -O0/-O1/-O2. Trusted: TLC, the renderer (a rejected rendering is reported, never judged).",
+   technique="TLA+ executable semantics + TLC trace validation of compiled-program observations",
+   ref="§4 C01"),
+ "C06": dict(
+   text="The partial operations of DDPSem (indexing for reading, as assignment target and as Referenz argument, nested indexing, the three slice forms with clamping, Variable "
+        "conversions, '...') define which cases end in a Laufzeitfehler; every (length, index) pair incl. 64-bit extremes x element type x access form is compiled and run, and TLC "
+        "checks in both directions: out of domain => 'Laufzeitfehler' on stderr and exit status 1 with the output so far; in domain => no error and the right value.",
+   note="Lengths 0..3 (quick) / 0..4 (thorough), -O1 (quick) / all levels (thorough). Cases expected to fail run one process per case through a forking driver linked in place of "
+        "main.o (same init/top-level/end sequence); a seeded sample also runs as stand-alone executables.",
+   technique="TLA+ executable semantics (domain predicates) + TLC trace validation of compiled-program observations",
+   ref="§4 C06"),
+ "C08": dict(
+   text="DDPSem is value-semantic by construction: the store maps locations to values and only Referenz bindings alias. The copy-introducing construct x mutation form x "
+        "non-primitive type matrix (plus Referenz aliasing of variable/element/field, the same variable by value and by Referenz, globals touched by the callee, for-each over a "
+        "mutated source) is compiled at -O0/-O1/-O2 and TLC validates every run against the semantics.",
+   note="Bounded to the enumerated matrix. Two genuine -O2 violations (copy elision) are recorded as known findings.",
+   technique="TLA+ executable semantics + TLC trace validation of compiled-program observations at all optimisation levels",
+   ref="§4 C08"),
 }
 PENDING = {}
 
